@@ -32,6 +32,7 @@ theorem tpool_add_to_pool_early_ok : earlyOks tpool_add_to_pool = [["$2", "self.
 theorem tpool_add_to_pool_errors : fails tpool_add_to_pool = [("DuplicateTx", "self.txpool.contains_tx(&$1)")]
     ∧ mapped tpool_add_to_pool = [("validate", "InvalidTx")] := by decide
 theorem tpool_add_to_pool_depth : depths tpool_add_to_pool = [1, 2, 1, 0, 2, 0, 0, 1, 0, 1, 0, 0, 1, 0] := by decide
+theorem tpool_add_to_pool_guard_inputs : guardInputs tpool_add_to_pool = ["<if>", "tx", "is_acceptable", "<boollit>", "<boollit>", "<if>", "convert_tx_v2"] := by decide
 
 /-! ### `TransactionPool::add_to_stempool (pool/src/transaction_pool.rs)` -/
 theorem tpool_add_to_stempool_order : readOk tpool_add_to_stempool = true ∧ spine tpool_add_to_stempool =
@@ -41,6 +42,7 @@ theorem tpool_add_to_stempool_early_ok : earlyOks tpool_add_to_stempool = [] := 
 theorem tpool_add_to_stempool_errors : fails tpool_add_to_stempool = []
     ∧ mapped tpool_add_to_stempool = [] := by decide
 theorem tpool_add_to_stempool_depth : depths tpool_add_to_stempool = [0] := by decide
+theorem tpool_add_to_stempool_guard_inputs : guardInputs tpool_add_to_stempool = [] := by decide
 
 /-! ### `TransactionPool::add_to_txpool (pool/src/transaction_pool.rs)` -/
 theorem tpool_add_to_txpool_order : readOk tpool_add_to_txpool = true ∧ spine tpool_add_to_txpool =
@@ -50,6 +52,7 @@ theorem tpool_add_to_txpool_early_ok : earlyOks tpool_add_to_txpool = [] := by d
 theorem tpool_add_to_txpool_errors : fails tpool_add_to_txpool = []
     ∧ mapped tpool_add_to_txpool = [] := by decide
 theorem tpool_add_to_txpool_depth : depths tpool_add_to_txpool = [0, 0, 0] := by decide
+theorem tpool_add_to_txpool_guard_inputs : guardInputs tpool_add_to_txpool = [] := by decide
 
 /-! ### `TransactionPool::verify_kernel_variants (pool/src/transaction_pool.rs)` -/
 theorem tpool_verify_kernel_variants_order : readOk tpool_verify_kernel_variants = true ∧ spine tpool_verify_kernel_variants =
@@ -59,6 +62,7 @@ theorem tpool_verify_kernel_variants_early_ok : earlyOks tpool_verify_kernel_var
 theorem tpool_verify_kernel_variants_errors : fails tpool_verify_kernel_variants = [("NRDKernelNotEnabled", "!(global::is_nrd_enabled())"), ("NRDKernelPreHF3", "($1.version < HeaderVersion(4))")]
     ∧ mapped tpool_verify_kernel_variants = [] := by decide
 theorem tpool_verify_kernel_variants_depth : depths tpool_verify_kernel_variants = [1, 2, 2] := by decide
+theorem tpool_verify_kernel_variants_guard_inputs : guardInputs tpool_verify_kernel_variants = [] := by decide
 
 /-! ### `TransactionPool::reconcile_block (pool/src/transaction_pool.rs)` -/
 theorem tpool_reconcile_block_order : readOk tpool_reconcile_block = true ∧ spine tpool_reconcile_block =
@@ -68,6 +72,7 @@ theorem tpool_reconcile_block_early_ok : earlyOks tpool_reconcile_block = [] := 
 theorem tpool_reconcile_block_errors : fails tpool_reconcile_block = []
     ∧ mapped tpool_reconcile_block = [] := by decide
 theorem tpool_reconcile_block_depth : depths tpool_reconcile_block = [0, 0, 0] := by decide
+theorem tpool_reconcile_block_guard_inputs : guardInputs tpool_reconcile_block = [] := by decide
 
 /-! ### `TransactionPool::evict_from_txpool (pool/src/transaction_pool.rs)` -/
 theorem tpool_evict_from_txpool_order : readOk tpool_evict_from_txpool = true ∧ spine tpool_evict_from_txpool =
@@ -77,6 +82,7 @@ theorem tpool_evict_from_txpool_early_ok : earlyOks tpool_evict_from_txpool = []
 theorem tpool_evict_from_txpool_errors : fails tpool_evict_from_txpool = []
     ∧ mapped tpool_evict_from_txpool = [] := by decide
 theorem tpool_evict_from_txpool_depth : depths tpool_evict_from_txpool = [0] := by decide
+theorem tpool_evict_from_txpool_guard_inputs : guardInputs tpool_evict_from_txpool = [] := by decide
 
 /-! ### `Pool::add_to_pool (pool/src/pool.rs)` -/
 theorem pool_add_to_pool_order : readOk pool_add_to_pool = true ∧ spine pool_add_to_pool =
@@ -86,6 +92,7 @@ theorem pool_add_to_pool_early_ok : earlyOks pool_add_to_pool = [] := by decide
 theorem pool_add_to_pool_errors : fails pool_add_to_pool = [("DuplicateTx", "$3.contains(&$0.tx)")]
     ∧ mapped pool_add_to_pool = [] := by decide
 theorem pool_add_to_pool_depth : depths pool_add_to_pool = [1, 1, 0] := by decide
+theorem pool_add_to_pool_guard_inputs : guardInputs pool_add_to_pool = ["all_transactions"] := by decide
 
 /-! ### `Pool::validate_raw_tx (pool/src/pool.rs)` -/
 theorem pool_validate_raw_tx_order : readOk pool_validate_raw_tx = true ∧ spine pool_validate_raw_tx =
@@ -95,6 +102,7 @@ theorem pool_validate_raw_tx_early_ok : earlyOks pool_validate_raw_tx = [] := by
 theorem pool_validate_raw_tx_errors : fails pool_validate_raw_tx = []
     ∧ mapped pool_validate_raw_tx = [] := by decide
 theorem pool_validate_raw_tx_depth : depths pool_validate_raw_tx = [0, 0, 0] := by decide
+theorem pool_validate_raw_tx_guard_inputs : guardInputs pool_validate_raw_tx = [] := by decide
 
 /-! ### `Pool::validate_raw_txs (pool/src/pool.rs)` -/
 theorem pool_validate_raw_txs_order : readOk pool_validate_raw_txs = true ∧ spine pool_validate_raw_txs =
@@ -104,6 +112,7 @@ theorem pool_validate_raw_txs_early_ok : earlyOks pool_validate_raw_txs = [] := 
 theorem pool_validate_raw_txs_errors : fails pool_validate_raw_txs = []
     ∧ mapped pool_validate_raw_txs = [] := by decide
 theorem pool_validate_raw_txs_depth : depths pool_validate_raw_txs = [] := by decide
+theorem pool_validate_raw_txs_guard_inputs : guardInputs pool_validate_raw_txs = ["<match>"] := by decide
 
 /-! ### `Pool::reconcile (pool/src/pool.rs)` -/
 theorem pool_reconcile_order : readOk pool_reconcile = true ∧ spine pool_reconcile =
@@ -114,6 +123,7 @@ theorem pool_reconcile_early_ok : earlyOks pool_reconcile = [] := by decide
 theorem pool_reconcile_errors : fails pool_reconcile = []
     ∧ mapped pool_reconcile = [] := by decide
 theorem pool_reconcile_depth : depths pool_reconcile = [] := by decide
+theorem pool_reconcile_guard_inputs : guardInputs pool_reconcile = ["entries"] := by decide
 
 /-! ### `Pool::find_matching_transactions (pool/src/pool.rs)` -/
 theorem pool_find_matching_transactions_order : readOk pool_find_matching_transactions = true ∧ spine pool_find_matching_transactions =
@@ -123,5 +133,6 @@ theorem pool_find_matching_transactions_early_ok : earlyOks pool_find_matching_t
 theorem pool_find_matching_transactions_errors : fails pool_find_matching_transactions = []
     ∧ mapped pool_find_matching_transactions = [] := by decide
 theorem pool_find_matching_transactions_depth : depths pool_find_matching_transactions = [0] := by decide
+theorem pool_find_matching_transactions_guard_inputs : guardInputs pool_find_matching_transactions = ["kernels", "kernels"] := by decide
 
 end GV.Props.XlateShapePool
